@@ -23,10 +23,19 @@ class Env(object):
         self.cache = {}          # module-owned, lives for the worker's lifetime
 
     wall = core.CHILD_WALL_GUARD_S
+    zygote = None
 
     def pristine(self, fn, *args, **kwargs):
-        kwargs.setdefault('wall', self.wall)
-        status, val = core.fork_call(fn, *args, **kwargs)
+        """fn(*args) in a process that has never done anything but import the package."""
+        wall = kwargs.pop('wall', self.wall)
+        if os.environ.get('VERIF_NO_ZYGOTE'):
+            status, val = core.fork_call(fn, *args, wall=wall)
+        else:
+            if self.zygote is None or self.zygote.pid is None:
+                self.zygote = core.Zygote()
+            mod = fn.__module__
+            mod = mod.upper() if mod in ('c09', 'c14', 'c15', 'c17') else mod
+            status, val = self.zygote.call(mod, fn.__name__, list(args), wall)
         if status != 'ok':
             raise core.HarnessError("%s in pristine child: %s" % (status, val))
         return val
@@ -108,6 +117,12 @@ def main():
         proto.flush()
         return 2
     env = Env()
+    # import the property modules now, so that the zygote (forked at the first program) and all
+    # its grandchildren already have them
+    for prop in ('C09', 'C14', 'C15', 'C17'):
+        core.get_module(prop)
+    if not os.environ.get('VERIF_NO_ZYGOTE'):
+        env.zygote = core.Zygote()
     for line in sys.stdin:
         line = line.strip()
         if not line:
@@ -132,6 +147,8 @@ def main():
         close = getattr(v, 'close', None)
         if close:
             close()
+    if env.zygote is not None:
+        env.zygote.close()
     return 0
 
 
